@@ -52,6 +52,10 @@ import (
 // filter naming sub elements (f) accepts both readings the statement leaves open (the named sub elements go / the
 // element that was named goes); (a)-(e) do not depend on the reading.
 //
+// Degenerate shapes and the histories they open (c04_degenerate.go): a delete filter that names neither a selector nor
+// elements (alone, next to data, next to every partial part), and selector writes whose item carries identifiers —
+// after which a list may hold several elements with the same identifiers; the history goes on from there.
+//
 // One history in three is BLIND: the store is set once and never read while 2-3 writes are delivered;
 // the reference is carried forward from the verdicts on the tap alone (error result: unchanged; success:
 // the fold) and the store is read once at the end                                 blind/<deviation>
@@ -72,11 +76,17 @@ var c04FlagField = map[model.FunctionType]string{
 
 var c04Shapes = []string{"full", "partial-ids", "partial-ids+unknown", "partial-ids+flag", "noid", "noid+flag", "selector", "selector+flag",
 	"delete-selector", "delete-elements", "delete-elements(flag)", "delete-selector-elements", "delete-selector-elements(flag)", "delete-selector+partial-ids", "delete-elements+partial-ids", "delete-selector+selector",
-	"selector(empty)", "delete-selector(empty)", c04OtherCombo, "two-cmds"}
+	"selector(empty)", "delete-selector(empty)", c04OtherCombo, c04BareDelete, "selector+ids", "two-cmds"}
 
 // c04OtherCombo: focal shape standing for the combinations of a delete part and a partial part that have no shape
 // of their own above; a write drawn for it carries the name of the concrete combination (signatures, classes).
 const c04OtherCombo = "delete+partial(other)"
+
+// c04BareDelete: focal shape for writes whose delete filter carries cmdControl.delete and NOTHING else (neither a
+// selector nor elements): alone with an empty function element, or next to data / a partial part (c04_degenerate.go)
+const c04BareDelete = "delete-bare"
+
+var c04BareVariants = []string{"delete-bare", "delete-bare", "delete-bare", "delete-bare+data", "delete-bare+partial-ids", "delete-bare+noid", "delete-bare+selector"}
 
 var c04OtherCombos = []string{"delete-selector-elements+partial-ids", "delete-selector-elements+selector", "delete-elements+selector",
 	"delete-selector+noid", "delete-elements+noid", "delete-selector-elements+noid"}
@@ -85,7 +95,7 @@ var c04OtherCombos = []string{"delete-selector-elements+partial-ids", "delete-se
 // and that lie outside the open findings D3/D6 (a full write and every write mentioning the flag are judged
 // write by write only, where the known deviation can be told from a new one)
 var c04BlindShapes = []string{"partial-ids", "partial-ids+unknown", "noid", "selector", "delete-selector", "delete-elements", "delete-selector-elements",
-	"delete-selector+partial-ids", "delete-elements+partial-ids", "delete-selector+selector", "delete-selector(empty)", c04OtherCombo}
+	"delete-selector+partial-ids", "delete-elements+partial-ids", "delete-selector+selector", "delete-selector(empty)", c04OtherCombo, c04BareDelete}
 
 // sub-shapes of the two commands of a "two-cmds" datagram
 var c04SubShapes = []string{"partial-ids", "selector", "delete-selector", "delete-selector-elements", "noid"}
@@ -96,10 +106,10 @@ func init() {
 	rig.Register(&rig.Check{
 		ID:    "C04",
 		Floor: 200,
-		Rule: "case = (list function of {loadControlLimitListData, setpointListData, deviceConfigurationKeyValueListData, two flag-less controls}, focal write shape of 20, block): histories of 1-3 real write datagrams " +
+		Rule: "case = (list function of {loadControlLimitListData, setpointListData, deviceConfigurationKeyValueListData, two flag-less controls}, focal write shape of 22, block): histories of 1-3 real write datagrams " +
 			"(delete filters name one or two elements or sub elements of a structured element; the focal shape delete+partial(other) stands for the six combinations of a delete part and a partial part without a shape of their own) " +
 			"from a bound peer against a list of 1-4 identified elements (stored in any order, one list in six with an additional element without identifier) with flags true/false/absent (60% of the writes have the focal shape, the others a random one; " +
-			"one flag-mentioning write in three carries nothing but the flag; selectors name one identifier or nothing at all; one shape puts two commands into one datagram), every write judged against a deep copy of the state before it; " +
+			"one flag-mentioning write in three carries nothing but the flag; selectors name one identifier or nothing at all; one shape puts two commands into one datagram; one shape carries a delete filter with neither selector nor elements, alone or next to data / a partial part; one shape is a selector write whose item carries identifiers of its own, after which the list may hold elements with equal identifiers and the history is extended by a write), every write judged against a deep copy of the state before it; " +
 			"whenever the write leaves an element unaddressed the same write is also sent to a second World that differs only in that element's flag (or presence) and the verdicts are compared. " +
 			"One history in three is blind: 2-3 writes back to back on a store that is set once and read once at the end, the reference carried forward from the verdicts on the tap. " +
 			"A case is non-trivial if at least 20 writes were judged, at least one was accepted and (for flagged types) at least one rejected; distinct = distinct (function, focal shape, set of (shape, verdict, pair compared)).",
@@ -109,6 +119,8 @@ func init() {
 			"the addressed set: identifiers of a partial write, the selector match (every element for a selector that names no field), every element for identifier-less, delete-elements and filter-less writes; for a datagram with two commands the union",
 			"what an accepted partial write through a selector that selects several elements leaves behind is not fixed by the statement: (f) is not applied to selector(empty); an accepted delete through the empty selector has deleted every element",
 			"a delete filter whose elements name SUB elements of a structured element has, when accepted, removed the named sub elements from every element it addresses; whether their siblings inside the structured element stay or go is not fixed by the statement: both states are accepted (per command); everything else (protected, unaddressed, error => exactly unchanged) is demanded as for any other write",
+			"a delete filter that names neither a selector nor elements: the write counts as addressing every element ((c), (d) not demanded); when accepted the store equals the fold of the rest of the write on the list as it was or on the emptied list; (a), (b), (e) are demanded as for any other write",
+			"a selector write whose item carries identifiers addresses the selected element and the element with those identifiers; (f) is applied to it only if both are the same element; elements are paired before/after a write by identifiers and, among equal identifiers, by content (unchanged first, protected elements first); (f) is not applied to a write that addresses an element whose identifiers are not unique",
 			"a write is the write datagram: a success result for a datagram with two commands says that the changes of both commands are applied",
 			"that a write addressing only changeable elements is accepted is not demanded (C03); it is counted as expected-accept-but-rejected",
 			"the items of a datagram are taken as the receiver decodes them (JSON fidelity is C18's subject)",
@@ -138,6 +150,8 @@ type c04Write struct {
 	flagOnly  bool         // ... and nothing else
 	elemText  string       // the elements part of the delete filter, rendered
 	elemForm  string       // what the elements part of the delete filter names: one | two | sub | two(sub) (c04_elements.go)
+	bare      bool         // the command carries a delete filter with neither selector nor elements (c04_degenerate.go)
+	selIds    int          // selector+ids: the identifier the data item of the selector write carries (-1: none)
 }
 
 func (w *c04Write) String() string {
@@ -147,6 +161,9 @@ func (w *c04Write) String() string {
 	}
 	if w.emptySel {
 		s += " [selector replaced by the empty selector {}]"
+	}
+	if w.bare {
+		s += " [the command carries a delete filter {cmdControl:{delete:{}}} without selector and without elements]"
 	}
 	if w.u2 != nil {
 		s += " || second command: " + w.u2.String()
@@ -298,7 +315,7 @@ func c04Ids(li *rig.ListInfo, items []reflect.Value) (ids []int, byId map[int]re
 // c04GenWrite draws a write of the given shape against old (any order; at most one element without identifier).
 func c04GenWrite(c *rig.Ctx, li *rig.ListInfo, shape string, old []reflect.Value) (w c04Write, ok bool) {
 	r := c.Rand
-	w = c04Write{shape: shape, addressed: map[int]bool{}, u: rig.Update{SelKey: -1, DelSel: -1}}
+	w = c04Write{shape: shape, addressed: map[int]bool{}, u: rig.Update{SelKey: -1, DelSel: -1}, selIds: -1}
 	w.flagShape = strings.Contains(shape, "flag")
 	if w.flagShape && li.WriteCheck < 0 {
 		return w, false
@@ -474,6 +491,34 @@ func c04GenWrite(c *rig.Ctx, li *rig.ListInfo, shape string, old []reflect.Value
 		w.addressed[w.u.DelSel], w.addressed[w.u.SelKey] = true, true
 	case c04OtherCombo:
 		return c04GenWrite(c, li, c04OtherCombos[r.Intn(len(c04OtherCombos))], old)
+	case c04BareDelete:
+		return c04GenBare(c, li, c04BareVariants[r.Intn(len(c04BareVariants))], old, ids)
+	case "selector+ids":
+		// a selector write whose data item carries identifiers of its own: those of another element (mostly), of
+		// the selected element, or of no element of the list
+		if !li.SelCoversKeys {
+			return w, false
+		}
+		w.u.Kind = "partial-sel"
+		w.u.SelKey = pick()
+		var others []int
+		for _, id := range ids {
+			if id != w.u.SelKey {
+				others = append(others, id)
+			}
+		}
+		switch x := r.Intn(8); {
+		case x == 0:
+			w.selIds = w.u.SelKey
+		case x == 1 && len(absent) > 0:
+			w.selIds = absent[r.Intn(len(absent))]
+		case len(others) > 0:
+			w.selIds = others[r.Intn(len(others))]
+		default:
+			w.selIds = w.u.SelKey
+		}
+		w.u.Items = []reflect.Value{c04Item(c, li, w.selIds)}
+		w.addressed[w.u.SelKey], w.addressed[w.selIds] = true, true
 	case "delete-selector-elements+partial-ids", "delete-selector-elements+selector", "delete-elements+selector",
 		"delete-selector+noid", "delete-elements+noid", "delete-selector-elements+noid":
 		parts := strings.SplitN(shape, "+", 2)
@@ -575,6 +620,9 @@ func c04Wire(lw *listWorld, w *c04Write, ack bool) ([]byte, []rig.Update, model.
 				}
 			}
 		}
+		if w.bare && i == 0 {
+			c04AddBareDelete(li, &cmd, us[i].PartialFirst)
+		}
 		cmds = append(cmds, cmd)
 	}
 	dg := rig.Datagram(model.CmdClassifierTypeWrite, lw.peerCli, lw.local.Address(), mc, ack, nil, cmds[0])
@@ -602,6 +650,11 @@ func c04Wire(lw *listWorld, w *c04Write, ack bool) ([]byte, []rig.Update, model.
 		if len(us[i].DelElem) > 0 {
 			_, fdDec := d.Datagram.Payload.Cmd[i].ExtractFilter()
 			if err := c04CheckElementsDecoded(li, us[i], fdDec); err != nil {
+				return nil, nil, mc, err
+			}
+		}
+		if w.bare && i == 0 {
+			if err := c04CheckBareDecoded(&d.Datagram.Payload.Cmd[i]); err != nil {
 				return nil, nil, mc, err
 			}
 		}
@@ -694,10 +747,14 @@ func c04Send(c *rig.Ctx, lw *listWorld, w *c04Write, old []reflect.Value, ack bo
 		v.add("rejected-but-changed")
 	}
 	// element level: (a) protected elements, (b) flags, (c) unaddressed elements
-	gotBy := c04ByKey(li, got)
+	match := c04Match(li, pre, got)
 	elementLevel := false
-	for _, o := range pre {
-		g, present := gotBy[c04Key(li, o)]
+	for i, o := range pre {
+		var g reflect.Value
+		present := match[i] >= 0
+		if present {
+			g = got[match[i]]
+		}
 		sameButFlag := present && rig.Canon(c04NoFlag(li, []reflect.Value{g})[0]) == rig.Canon(c04NoFlag(li, []reflect.Value{o})[0])
 		if !c04Changeable(li, o) {
 			switch {
@@ -961,6 +1018,11 @@ func c04Case(c *rig.Ctx) {
 			if r.Intn(5) >= 3 {
 				shape = c04Shapes[r.Intn(ns-1)] // two-cmds (the last shape) only where it is the focal shape
 			}
+			// a list on which earlier writes of the history left several elements with the same identifiers
+			dups := len(c04DupKeys(li, cur)) > 0
+			if dups && k == writes-1 && writes < 5 {
+				writes++ // the history goes on for one more write
+			}
 			curIds, _ := c04Ids(li, cur)
 			w, ok := c04GenWrite(c, li, shape, cur)
 			if !ok {
@@ -982,6 +1044,27 @@ func c04Case(c *rig.Ctx) {
 				rejected++
 			}
 			c.Count("writes:"+shape+":"+verdict, 1)
+			if dups {
+				dupAddr := "unaddressed"
+				if c04AddressesDup(li, &w, cur) {
+					dupAddr = "addressed"
+				}
+				c.Count("writes-on-lists-with-duplicate-identifiers("+dupAddr+"):"+w.u.Kind+":"+verdict, 1)
+				classes["dup-identifiers:"+dupAddr+":"+verdict] = true
+			}
+			if w.selIds >= 0 {
+				how := "of-the-selected-element"
+				if _, byId := c04Ids(li, cur); w.selIds != w.u.SelKey {
+					how = "of-no-element"
+					if o, in := byId[w.selIds]; in {
+						how = "of-another-element(changeable)"
+						if !c04Changeable(li, o) {
+							how = "of-another-element(protected)"
+						}
+					}
+				}
+				c.Count("selector-write-carrying-identifiers-"+how+":"+verdict, 1)
+			}
 			if w.flagOnly {
 				c.Count("flag-only-writes:"+shape+":"+verdict, 1)
 			}
